@@ -178,7 +178,9 @@ func (n *NIC) primaryEndpoint(protocol tcpip.NetworkProtocolNumber) *referencedN
 		case header.IPv4Broadcast, header.IPv4Any:
 			continue
 		}
-		if r.tryIncRef() {
+		// An address that has been removed may still be referenced by the
+		// routes of its users; it is not a source for anybody new.
+		if r.holdsInsertRef && r.tryIncRef() {
 			return r
 		}
 	}
